@@ -407,6 +407,19 @@ pub fn hex_val(b: u8) -> Option<usize> {
 
 pub const PAY_CAP: usize = 24;
 
+/// When set, payload bytes are concrete ('A', 'B', ...) instead of symbolic: used by the harnesses in
+/// which a *broken* decoder would go on to parse payload bytes as framing (transient faults), which
+/// with symbolic payload makes line lengths symbolic and the run inconclusive instead of failing.
+pub static mut CONCRETE_PAYLOAD: bool = false;
+
+fn payload_byte(i: usize) -> u8 {
+    if unsafe { CONCRETE_PAYLOAD } {
+        b'A' + (i as u8 % 26)
+    } else {
+        kani::any()
+    }
+}
+
 #[derive(Clone, Copy)]
 pub struct Ch {
     /// chunk data size (>= 1)
@@ -515,7 +528,7 @@ impl Case {
             c.put(b'\n', done, done);
             let mut i = 0;
             while i < s.size {
-                let b: u8 = kani::any();
+                let b: u8 = payload_byte(c.pay_len);
                 c.payload[c.pay_len] = b;
                 c.pay_len += 1;
                 c.put(b, done, c.pay_len);
@@ -629,6 +642,11 @@ pub fn drive<R: Read>(r: &mut R, case: &Case, rd: usize, max_reads: usize, extra
                     j += 1;
                 }
                 d.delivered += n;
+                // a mismatch is already a violation; with concrete payload this stops the run
+                // before a broken decoder goes on to parse payload bytes as framing
+                if unsafe { CONCRETE_PAYLOAD } && (d.bad_byte || d.overrun) {
+                    break;
+                }
             }
             Err(e) => {
                 std::mem::forget(e);
